@@ -338,6 +338,18 @@ package ipfscluster
 //@   modifies nothing
 
 // the hash-distance test is abstracted: a deterministic function of (this peer, the competitors, the CID)
+// the memo table of peer hashes: "by exactly one surviving peer" rests on every member comparing the SAME hash of each
+// peer; the table must stay a table of hashes (each entry filed under the peer it was computed for)
+//@ func convertKey
+//@   opts trusted
+//@   ensures res == uf("keyHash", "distance", id)
+//@   modifies nothing
+//@ func (dc distanceChecker) convertPeerID
+//@   property C10
+//@   requires forall p peer.ID :: in(p, dom(dc.cache)) ==> dc.cache[p] == uf("keyHash", "distance", p)
+//@   ensures [the-hash-of-the-asked-peer] res == uf("keyHash", "distance", id)
+//@   ensures [the-memo-stays-a-table-of-hashes] forall p peer.ID :: in(p, dom(dc.cache)) ==> dc.cache[p] == uf("keyHash", "distance", p)
+//@   modifies dc.cache
 //@ func (dc distanceChecker) isClosest
 //@   opts trusted
 //@   ensures res == uf("isClosest", "bool", dc.local, dc.otherPeers, ci)
